@@ -353,6 +353,42 @@ theorem sigOpCount_opn_multisig (k m : Nat) (hk : 1 ≤ k ∧ k ≤ 16) (hm : m 
   have c6 : 0x51 ≤ 0x50 + k ∧ 0x50 + k ≤ 0x60 := by omega
   simp [c6] <;> omega
 
+theorem encOps_snoc (ops : List (Nat × Bytes)) (p : Nat × Bytes) :
+    encOps (ops ++ [p]) = encOps ops ++ opEnc p.1 p.2 := by
+  simp [encOps]
+
+theorem parse_encOps {ops : List (Nat × Bytes)} (hv : ∀ q ∈ ops, ValidOp q.1 q.2) :
+    parse (encOps ops) = (ops, true) := (parse_iff ops _).mpr ⟨hv, rfl⟩
+
+theorem lastOpcodeFrom_snoc (l : Nat) (ops : List (Nat × Bytes)) (p : Nat × Bytes) :
+    lastOpcodeFrom l (ops ++ [p]) = p.1 := by
+  induction ops generalizing l with
+  | nil => obtain ⟨o, d⟩ := p; rfl
+  | cons q r ih => obtain ⟨o, d⟩ := q; simp only [List.cons_append, lastOpcodeFrom, ih]
+
+/-- appending one operation to a complete script adds exactly its weight given the opcode before it -/
+theorem sigOpCount_snoc (acc : Bool) (ops : List (Nat × Bytes)) (o : Nat) (d : Bytes)
+    (hv : ∀ q ∈ ops, ValidOp q.1 q.2) (ho : ValidOp o d) :
+    sigOpCount acc (encOps ops ++ opEnc o d) =
+      sigOpCount acc (encOps ops) + sigWeight acc (ops.getLast?.map (·.1)) o := by
+  have hp : (parse (encOps ops)).2 = true := by rw [parse_encOps hv]
+  rw [sigOpCount_append acc _ _ hp, parse_encOps hv, parse_single ho]
+  congr 1
+  simp only [sigOpsFrom, Nat.add_zero, sigWeight]
+  rcases List.eq_nil_or_concat ops with rfl | ⟨r, q, rfl⟩
+  · simp [lastOpcodeFrom]
+  · simp only [List.concat_eq_append, lastOpcodeFrom_snoc, List.getLast?_append, List.getLast?_singleton,
+      Option.some_or, Option.map_some, decodeOPN]
+    by_cases h1 : o = 0xac ∨ o = 0xad
+    · simp [h1]
+    · by_cases h2 : o = 0xae ∨ o = 0xaf
+      · simp only [h1, h2, if_false, if_true]
+        by_cases h3 : acc = true ∧ 0x51 ≤ q.1 ∧ q.1 ≤ 0x60
+        · have : ¬ q.1 = 0 := by omega
+          simp [h3, this]
+        · simp [h3]
+      · simp [h1, h2]
+
 /-! ### canonical pushes, per operation -/
 
 theorem oneSmallByte_iff (d : Bytes) : oneSmallByte d = true ↔ ∃ x : UInt8, d = [x] ∧ x.toNat ≤ 16 := by
